@@ -267,27 +267,11 @@ func c07() []*Ob {
 			Desc:  "the lock-class order graph (class A held while class B is acquired, through static callees up to depth 3) is acyclic; same-class nesting is allowed only at Active.AppendIDs (MIDs.mu then RIDs.mu, one fixed order)",
 			Check: func(c *Ctx) { lockOrderCheck(c, c07Funcs(c)) }},
 		{Prop: "C07", ID: "C07.3", Engine: "ORDER", Floor: 2,
-			Desc: "publication order of an index update in ActiveIndexer.appendWorker: DocsPositions.SetMultiple < Active.AppendIDs < TokenList.Append < addLIDsToTokens (postings queued) < Active.UpdateStats < task.Wg.Done",
-			Check: func(c *Ctx) {
-				fn := c.Fn("(*frac.ActiveIndexer).appendWorker")
-				if fn == nil {
-					return
-				}
-				chain := []struct {
-					name string
-					m    Matcher
-				}{
-					{"DocsPositions.SetMultiple", Callee("(*frac.DocsPositions).SetMultiple")},
-					{"Active.AppendIDs", Callee("(*frac.Active).AppendIDs")},
-					{"TokenList.Append", Callee("(*frac.TokenList).Append")},
-					{"addLIDsToTokens", c.P.Reaches(Callee("(*frac.TokenLIDs).PutLIDsInQueue"), 2)},
-					{"Active.UpdateStats", Callee("(*frac.Active).UpdateStats")},
-					{"task.Wg.Done", Callee("(*sync.WaitGroup).Done")},
-				}
-				for i := 0; i+1 < len(chain); i++ {
-					MustPrecede(c, fn, chain[i].m, chain[i].name, chain[i+1].m, chain[i+1].name)
-				}
-			}},
+			Desc:  "publication order of an index update in ActiveIndexer.appendWorker: DocsPositions.SetMultiple < Active.AppendIDs < TokenList.Append < addLIDsToTokens (postings queued) < Active.UpdateStats < task.Wg.Done",
+			Check: func(c *Ctx) { indexPublicationOrder(c) }},
+		{Prop: "C07", ID: "C07.8", Engine: "ALIAS", Floor: 1,
+			Desc:  "sealing does not leave the next sealing a pointer into a fraction that is being read: nothing stored into the PreloadedData of a freshly sealed fraction aliases a table of the pooled docBlocksWriter (shared rule with C03.4; the next Seal rewrites that memory while fetches of the earlier fraction read it)",
+			Check: func(c *Ctx) { pooledTablesNotKept(c) }},
 		{Prop: "C07", ID: "C07.4", Engine: "ORDER+PROV", Floor: 3,
 			Desc: "readers: activeDataProvider.Search clamps params.From/To with the fraction's published From/To before the index search; getIDsIndex materialises the _all_ postings before it takes the mids/rids snapshots and sizes the inverser from the mids snapshot; TokenLIDs.GetLIDs takes the queued LIDs before the mids/rids snapshots it sorts and merges them with (the indexer appends ids first and queues LIDs afterwards, so only this order guarantees every queued LID is inside the snapshot); inverseLIDs keeps only LIDs the inverser knows",
 			Check: func(c *Ctx) {
@@ -728,4 +712,26 @@ func lockOrderCheck(c *Ctx, funcs []*ssa.Function) {
 func structOf(t types.Type) *types.Struct {
 	st, _ := t.Underlying().(*types.Struct)
 	return st
+}
+
+// indexPublicationOrder: rule body of C07.3, shared with other properties.
+func indexPublicationOrder(c *Ctx) {
+	fn := c.Fn("(*frac.ActiveIndexer).appendWorker")
+	if fn == nil {
+		return
+	}
+	chain := []struct {
+		name string
+		m    Matcher
+	}{
+		{"DocsPositions.SetMultiple", Callee("(*frac.DocsPositions).SetMultiple")},
+		{"Active.AppendIDs", Callee("(*frac.Active).AppendIDs")},
+		{"TokenList.Append", Callee("(*frac.TokenList).Append")},
+		{"addLIDsToTokens", c.P.Reaches(Callee("(*frac.TokenLIDs).PutLIDsInQueue"), 2)},
+		{"Active.UpdateStats", Callee("(*frac.Active).UpdateStats")},
+		{"task.Wg.Done", Callee("(*sync.WaitGroup).Done")},
+	}
+	for i := 0; i+1 < len(chain); i++ {
+		MustPrecede(c, fn, chain[i].m, chain[i].name, chain[i+1].m, chain[i+1].name)
+	}
 }
